@@ -52,10 +52,15 @@ def run(tier, res, is_known):
     if tier == 'quick':
         plan = [(f, i) for f, i in plan if not (f[0] == 'pct' and i == 1)]      # init 2 extends init 1
         plan.append((('pct', '0.00004', '0'), 3))      # commissions below half a cent (short / negative-cash state)
-    for fee, i in plan:
+    plan = [(fee, i, 'USD') for fee, i in plan]
+    # the account need not be in USD: every balance of another currency must stay untouched
+    plan.append((FEES_QUICK[1], 3 if tier == 'quick' else 2, 'GBP'))
+    if tier != 'quick':
+        plan.append((FEES_QUICK[0], 1, 'EUR'))
+    for fee, i, base in plan:
         for init in [INITIALS[i]]:
-            spec = bm.BrokerSpec('C01', fee, [init], alphabet, df_check=True)
-            bfs(spec, depth, res, is_known, label='fee=%s init=%d' % ('/'.join(fee), i))
+            spec = bm.BrokerSpec('C01', fee, [init], alphabet, df_check=True, base=base)
+            bfs(spec, depth, res, is_known, label='fee=%s init=%d base=%s' % ('/'.join(fee), i, base))
             if any(not is_known(v) for v in res.violations):
                 return
 
